@@ -65,6 +65,23 @@ Theorem C14_pip_decision_copy_unwind_balanced : ltac:(let t := type of pip_decis
 Proof. exact pip_decision_copy_unwind_balanced. Qed.
 Theorem C14_pip_decision_copy_unguarded_refuted : ltac:(let t := type of pip_decision_copy_unguarded_refuted in exact t).
 Proof. exact pip_decision_copy_unguarded_refuted. Qed.
+(* all remaining Dense_Row construction paths *)
+Theorem C14_dense_copy_cap_unwind_balanced : ltac:(let t := type of dense_copy_cap_unwind_balanced in exact t).
+Proof. exact dense_copy_cap_unwind_balanced. Qed.
+Theorem C14_dense_copy_sized_unwind_balanced : ltac:(let t := type of dense_copy_sized_unwind_balanced in exact t).
+Proof. exact dense_copy_sized_unwind_balanced. Qed.
+Theorem C14_dense_copy_sized_late_size_refuted : ltac:(let t := type of dense_copy_sized_late_size_refuted in exact t).
+Proof. exact dense_copy_sized_late_size_refuted. Qed.
+Theorem C14_dense_resize2_unwind_balanced : ltac:(let t := type of dense_resize2_unwind_balanced in exact t).
+Proof. exact dense_resize2_unwind_balanced. Qed.
+Theorem C14_dense_resize2_receiver_unchanged_refuted : ltac:(let t := type of dense_resize2_receiver_unchanged_refuted in exact t).
+Proof. exact dense_resize2_receiver_unchanged_refuted. Qed.
+Theorem C14_dense_ctor_sized_unwind_balanced : ltac:(let t := type of dense_ctor_sized_unwind_balanced in exact t).
+Proof. exact dense_ctor_sized_unwind_balanced. Qed.
+Theorem C14_dense_from_sparse_unwind_balanced : ltac:(let t := type of dense_from_sparse_unwind_balanced in exact t).
+Proof. exact dense_from_sparse_unwind_balanced. Qed.
+Theorem C14_dense_add_zeroes_and_shift_unwind_balanced : ltac:(let t := type of dense_add_zeroes_and_shift_unwind_balanced in exact t).
+Proof. exact dense_add_zeroes_and_shift_unwind_balanced. Qed.
 
 (* (c) text before b69eb94 / 53a83c0 *)
 Theorem C14_old_cotree_iter_ctor_unwind_partial : ltac:(let t := type of old_cotree_iter_ctor_unwind_partial in exact t).
